@@ -196,14 +196,16 @@ class VTuple(V):
 class VList(V):
     """items != None: concrete spine.  Otherwise functional: n (z3 Int) and get(index term) -> V."""
 
-    __slots__ = ("items", "n", "get", "kind")
+    __slots__ = ("items", "n", "get", "kind", "member")
 
     def __init__(self, items: list[V] | None = None, n: Any = None,
-                 get: Callable[[Any], V] | None = None, kind: str = "list"):
+                 get: Callable[[Any], V] | None = None, kind: str = "list",
+                 member: Callable[[V], Any] | None = None):
         self.items = items
         self.n = n
         self.get = get
         self.kind = kind
+        self.member = member  # optional membership predicate of a functional list
 
     def length(self) -> Any:
         return z3.IntVal(len(self.items)) if self.items is not None else self.n
@@ -223,6 +225,30 @@ class VList(V):
 
     def __repr__(self) -> str:
         return f"VList({self.items})" if self.items is not None else f"VList(n={self.n})"
+
+
+class VSymMap(V):
+    """A mapping with symbolically many keys, given by its observers:
+    n (z3 Int), key_at(j) -> V, has(k: V) -> z3 Bool, get(k: V) -> V (value of a contained key)."""
+
+    __slots__ = ("n", "key_at", "has", "get", "name")
+
+    def __init__(self, n: Any, key_at: Callable[[Any], V], has: Callable[[V], Any],
+                 get: Callable[[V], V], name: str = "map"):
+        self.n = n
+        self.key_at = key_at
+        self.has = has
+        self.get = get
+        self.name = name
+
+    def keys_list(self) -> "VList":
+        return VList(None, self.n, self.key_at)
+
+    def values_list(self) -> "VList":
+        return VList(None, self.n, lambda j: self.get(self.key_at(j)))
+
+    def __repr__(self) -> str:
+        return f"VSymMap({self.name})"
 
 
 class VDict(V):
